@@ -42,25 +42,12 @@ def check_redraw_loops(chk, crate, g, rule="R8"):
         if not okf:
             continue
         call = fc[0][4]
-        # destination: the whole 16-byte block
+        # the 16 bytes the source wrote in this iteration
         eff = [T.select(T.atom("effarr", 8, (call,), (1, 16)), T.const(i, 64), 8) for i in range(16)]
-        allz = T.and1([T.eqz(b) for b in eff])
-        normal_exits = [(c, h, a) for c, h, a in rec.exits]
-        if meth == "from_rng":
-            oke = len(normal_exits) == 1 and normal_exits[0][0] is T.bnot(allz)
-            detail = "exit condition %s" % (T.show(normal_exits[0][0], 3) if normal_exits else None)
-        else:
-            # exits: source error (return Err) and block not all zero
-            disc = T.atom("res", 64, (call,), "ret.discr")
-            okres = T.eqz(disc)
-            conds = {c for c, h, a in normal_exits}
-            errc = T.eq(disc, T.const(1, 64))
-            oke = len(normal_exits) == 2 and T.and1([okres, T.bnot(allz)]) in conds and (T.bnot(okres) in conds or errc in conds)
-            detail = "exit conditions %s" % [T.show(c, 3) for c in conds]
-        chk.ob(rule, inst + "|the loop is left only with a block that is not all zero%s" % (" (or the source's error)" if meth != "from_rng" else ""),
-               oke, detail, where=where, sample={"loop": inst, "exit": detail[:200]})
-        # state = LE decode of that block
+        # the block the generator is built from: either those bytes themselves (test after the fill) or loop variables that
+        # hold them from the previous iteration (test at the loop head, `while b == [0; 16] { fill }`)
         val = ret
+        okv = True
         if meth == "try_from_rng":
             okv = isinstance(ret, EnumV) and 0 in ret.payloads and 1 in ret.payloads
             chk.ob(rule, inst + "|returns Result", okv, "", nontrivial=False)
@@ -71,7 +58,64 @@ def check_redraw_loops(chk, crate, g, rule="R8"):
             oker = isinstance(errp, OpaqueV) and ("#%d" % call.id) in str(errp.token)
             chk.ob(rule, inst + "|on failure returns the source's own error and no generator", oker, "error payload %r" % (errp,), where=where)
         words = flat_leaves(val)
-        exp = REF.le_words(eff, 32)
-        okw = len(words) == 4 and all(a is b for a, b in zip(words, exp))
+        block = le_bytes_of(words)
+        okw = block is not None
+        prov = ""
+        if okw:
+            byvar = {t: n for n, wh, init, t, rng in rec.vars if isinstance(t, T.T)}
+            for i, b in enumerate(block):
+                if b is eff[i]:
+                    continue
+                n = byvar.get(b)
+                nxts = [c[1].get(n) for c in rec.conts] if n is not None else []
+                if n is None or not nxts or any(x is not eff[i] for x in nxts):
+                    okw = False
+                    prov = "byte %d of the block is %s, not byte %d written by the fill" % (i, T.show(b, 2), i)
+                    break
         chk.ob(rule, inst + "|state is the little-endian decode of the accepted block (as from_seed)", okw,
-               "state %s" % [T.show(w, 2) if isinstance(w, T.T) else w for w in words[:2]], where=where)
+               prov or "state %s" % [T.show(w, 2) if isinstance(w, T.T) else w for w in words[:2]], where=where)
+        if not okw:
+            continue
+        allz = T.and1([T.eqz(b) for b in block])
+        normal_exits = [(c, h, a) for c, h, a in rec.exits]
+        conds = [c for c, h, a in normal_exits]
+        if meth == "from_rng":
+            oke = len(conds) == 1 and conds[0] is T.bnot(allz)
+            detail = "exit condition %s" % (T.show(conds[0], 3) if conds else None)
+        else:
+            # exits: the source's error (return Err) and a block that is not all zero
+            disc = T.atom("res", 64, (call,), "ret.discr")
+            okres = T.eqz(disc)
+            good = [c for c in conds if c is T.bnot(allz) or c is T.and1([okres, T.bnot(allz)])]
+            bad = [c for c in conds if c not in good]
+            errc = T.eq(disc, T.const(1, 64))
+            fails = [T.bnot(okres), errc, T.and1([allz, T.bnot(okres)]), T.and1([allz, errc])]
+            failing = lambda c: any(c is f for f in fails)
+            oke = len(good) == 1 and len(bad) == 1 and failing(bad[0])
+            detail = "exit conditions %s" % [T.show(c, 3) for c in conds]
+        chk.ob(rule, inst + "|the loop is left only with a block that is not all zero%s" % (" (or the source's error)" if meth != "from_rng" else ""),
+               oke, detail, where=where, sample={"loop": inst, "exit": detail[:200]})
+
+
+def le_bytes_of(words):
+    """the 16 byte-wide atoms b0..b15 if the four 32-bit words are b[4k] ^ b[4k+1]<<8 ^ b[4k+2]<<16 ^ b[4k+3]<<24, else None"""
+    if len(words) != 4 or not all(isinstance(w, T.T) and w.w == 32 for w in words):
+        return None
+    out = []
+    for w in words:
+        c, e = T.aff_parts(w)
+        if c or len(e) != 4:
+            return None
+        pos = {}
+        for a, p in e.items():
+            if a.w != 8:
+                return None
+            cs = T.cols(p, 32, 8)
+            sh = [cj.bit_length() - 1 for cj in cs]
+            if any(cj != (1 << s_) for cj, s_ in zip(cs, sh)) or sh != list(range(sh[0], sh[0] + 8)) or sh[0] not in (0, 8, 16, 24):
+                return None
+            pos[sh[0] // 8] = a
+        if sorted(pos) != [0, 1, 2, 3]:
+            return None
+        out.extend(pos[k] for k in range(4))
+    return out if len(set(out)) == 16 else None
